@@ -158,6 +158,20 @@ def chunked(recs_strategy, max_chunks=6):
     return ncuts.flatmap(lambda k: st.tuples(recs_strategy, st.lists(st.integers(0, 10 ** 6), min_size=k, max_size=k))).map(split)
 
 
+def many_records(count, seed):
+    """`count` distinct pseudo-random records from one seed (no draw of tens of kilobytes): sizes around the block
+    sizes a buffered reader would use (256, 512, 1024, 2048, 4096 records)"""
+    import hashlib
+    out = []
+    for k in range(count):
+        h = hashlib.blake2b(b'%d/%d' % (seed, k), digest_size=64).digest()
+        out.append(bytes([h[0] | 1]) + h[1:])
+    return out
+
+
+BIG_COUNTS = [255, 256, 257, 511, 512, 513, 1023, 1024, 1025, 1100, 2047, 2048, 2049, 3000, 4096, 4097]
+
+
 def big_records(lo=41, hi=260):
     """many records in one draw (cheap): chunk sizes beyond the usual few dozen"""
     return st.integers(lo, hi).flatmap(lambda k: st.binary(min_size=64 * k, max_size=64 * k)).map(
